@@ -83,14 +83,14 @@ func (t *Term) IsFalse() bool { return t.Op == OpConst && t.Sort.Bool && t.Val =
 
 // TermTable hash-conses terms. One per worker.
 type TermTable struct {
-	tab   map[termKey]*Term
-	terms []*Term
-	Vars  []*Term
-	UFs   map[string]*Term // name -> sample application (for declaration)
-	small [256]*Term
-	small64 [1024]*Term
-	tt    *Term
-	ff    *Term
+	tab        map[termKey]*Term
+	terms      []*Term
+	Vars       []*Term
+	UFs        map[string]*Term // name -> sample application (for declaration)
+	small      [256]*Term
+	small64    [1024]*Term
+	tt         *Term
+	ff         *Term
 	varsCache  map[int]varsEntry
 	truthCache map[int]bitset
 }
